@@ -11,6 +11,15 @@
      CorCall(b)  vbi_dvb_mux_cor() with an output buffer of b bytes: generates the packet of the
                  frame at its first call, then copies it out, inserting TS headers on the fly
      Reset       vbi_dvb_mux_reset()
+     SetDid(d)   vbi_dvb_mux_set_data_identifier(): between any two calls, in particular while a packet
+                 is partly delivered through the coroutine; refused (FALSE, nothing changes) for an
+                 identifier outside 0x10-0x1F / 0x99-0x9B
+     SetSizes(r) vbi_dvb_mux_set_pes_packet_size(): the same; the request is rounded to the grid of
+                 transport packets (RoundSizes)
+   A reconfiguration takes effect for the packets generated after it: a packet that was generated and is
+   partly delivered is completed as generated ("We do not store this in mx->packet[] directly to avoid a
+   race with the coroutine", vbi_dvb_pes_mux_new).  Every record of hist and the coroutine state carry
+   the configuration their packet was generated under; the properties judge a packet by that one.
    The encoder (Gen) follows generate_pes_packet(): sliced lines become data units in order, a raw line
    becomes adjacent sample segments, whatever does not fit into max_packet_size rejects the frame.
 
@@ -33,7 +42,11 @@ CONSTANTS ClearOnReject,
           Cfgs,        \* configurations [ts, pid, did, min, max]
           NFrames,     \* number of frames of FrameTab handed in (with repetition)
           MaxFrames,   \* length of a history
-          CorBufs      \* output buffer sizes of vbi_dvb_mux_cor
+          CorBufs,     \* output buffer sizes of vbi_dvb_mux_cor
+          Dids,        \* data_identifiers requested by vbi_dvb_mux_set_data_identifier between calls
+          SizeReqs,    \* <<min, max>> requested by vbi_dvb_mux_set_pes_packet_size between calls
+          MaxReconf,   \* number of reconfigurations in a behaviour
+          WriteThrough \* TRUE: the setter pokes the data_identifier into the packet buffer (a deviation, for MC_DvbMux_wt.cfg)
 
 MustAccept(frame, cf) == MustAcceptN(frame, cf, RawN)
 MustReject(frame, cf) == MustRejectN(frame, cf, RawN)
@@ -88,18 +101,20 @@ Gen(c, m, frame, pts) ==
 AfterReject(g) == IF ClearOnReject THEN [rl |-> 0, rline |-> 0] ELSE [rl |-> g.rl, rline |-> g.rline]
 
 -----------------------------------------------------------------------------
-VARIABLES c,        \* configuration
+VARIABLES c,        \* configuration in force (the getters)
           m,        \* [cc, rl, rline]
-          cor,      \* [off, end, tsleft, pkt, pes, acc, cc0]
+          cor,      \* [off, end, tsleft, pkt, pes, acc, cc0, c]: c = the configuration the packet was generated under
           cur,      \* <<>> or <<[frame, pts]>>: the frame being handed to the coroutine
-          hist      \* [frame, pts, ok, via, pes, bytes, cc0]
-vars == <<c, m, cor, cur, hist>>
+          hist,     \* [frame, pts, ok, via, pes, bytes, cc0, c]: c = the configuration in force when the frame was handed in
+          nre       \* reconfigurations so far
+vars == <<c, m, cor, cur, hist, nre>>
 
 CONSTANT FrameTab(_)        \* the k-th frame of the alphabet (1 .. NFrames)
 PtsTab(k) == <<k % 8, 1000 * k + 3>>
 
-CorIdle == [off |-> 0, end |-> 0, tsleft |-> 0, pkt |-> <<>>, pes |-> <<>>, acc |-> <<>>, cc0 |-> 0]
-Init == /\ c \in Cfgs /\ m = [cc |-> 0, rl |-> 0, rline |-> 0] /\ cor = CorIdle /\ cur = <<>> /\ hist = <<>>
+NoCfg == [ts |-> FALSE, pid |-> 0, did |-> 0, min |-> 0, max |-> 0]
+CorIdle == [off |-> 0, end |-> 0, tsleft |-> 0, pkt |-> <<>>, pes |-> <<>>, acc |-> <<>>, cc0 |-> 0, c |-> NoCfg]
+Init == /\ c \in Cfgs /\ m = [cc |-> 0, rl |-> 0, rline |-> 0] /\ cor = CorIdle /\ cur = <<>> /\ hist = <<>> /\ nre = 0
 
 CbBytes(pes, cc0) == IF c.ts THEN TsPackets(pes, c.pid, cc0, TRUE) ELSE pes
 NTs(pes) == Len(pes) \div TSP
@@ -110,10 +125,10 @@ FeedCb(k) ==
      IF g.ok
      THEN /\ m' = [cc |-> IF c.ts THEN m.cc + NTs(g.pes) ELSE m.cc, rl |-> 0, rline |-> 0]
           /\ hist' = Append(hist, [frame |-> frame, pts |-> pts, ok |-> TRUE, via |-> "cb", pes |-> g.pes,
-                                   bytes |-> CbBytes(g.pes, m.cc), cc0 |-> m.cc])
+                                   bytes |-> CbBytes(g.pes, m.cc), cc0 |-> m.cc, c |-> c])
      ELSE /\ m' = [m EXCEPT !.rl = AfterReject(g).rl, !.rline = AfterReject(g).rline]
-          /\ hist' = Append(hist, [frame |-> frame, pts |-> pts, ok |-> FALSE, via |-> "cb", pes |-> <<>>, bytes |-> <<>>, cc0 |-> m.cc])
-  /\ cor' = CorIdle /\ UNCHANGED <<c, cur>>          \* "Lost unconsumed data from a previous vbi_dvb_mux_cor() call"
+          /\ hist' = Append(hist, [frame |-> frame, pts |-> pts, ok |-> FALSE, via |-> "cb", pes |-> <<>>, bytes |-> <<>>, cc0 |-> m.cc, c |-> c])
+  /\ cor' = CorIdle /\ UNCHANGED <<c, cur, nre>>          \* "Lost unconsumed data from a previous vbi_dvb_mux_cor() call"
 
 TsHdr(first, cc) == TsHeader(c.pid, first, cc)
 Overwrite(q, at, v) == [i \in 1..Len(q) |-> IF i > at /\ i <= at + Len(v) THEN v[i - at] ELSE q[i]]
@@ -130,7 +145,7 @@ CorCopy(x, b, end) ==
        IN IF b - n > 0 /\ z.off < end THEN CorCopy(z, b - n, end) ELSE z
 
 CorStart(k) == /\ cur = <<>> /\ Len(hist) < MaxFrames /\ CorBufs # {}
-               /\ cur' = <<[frame |-> FrameTab(k), pts |-> PtsTab(Len(hist) + 1)]>> /\ UNCHANGED <<c, m, cor, hist>>
+               /\ cur' = <<[frame |-> FrameTab(k), pts |-> PtsTab(Len(hist) + 1)]>> /\ UNCHANGED <<c, m, cor, hist, nre>>
 
 CorCall(b) ==
   /\ cur # <<>>
@@ -140,41 +155,60 @@ CorCall(b) ==
      IF fresh /\ ~g.ok
      THEN /\ m' = [m EXCEPT !.rl = AfterReject(g).rl, !.rline = AfterReject(g).rline]
           /\ cor' = CorIdle /\ cur' = <<>>
-          /\ hist' = Append(hist, [frame |-> frame, pts |-> pts, ok |-> FALSE, via |-> "cor", pes |-> <<>>, bytes |-> <<>>, cc0 |-> m.cc])
-     ELSE LET st == IF fresh THEN [off |-> 4, end |-> Len(g.pes) + 4, tsleft |-> 0, pkt |-> <<0, 0, 0, 0>> \o g.pes, pes |-> g.pes, acc |-> <<>>, cc0 |-> m.cc]
+          /\ hist' = Append(hist, [frame |-> frame, pts |-> pts, ok |-> FALSE, via |-> "cor", pes |-> <<>>, bytes |-> <<>>, cc0 |-> m.cc, c |-> c])
+     ELSE LET st == IF fresh THEN [off |-> 4, end |-> Len(g.pes) + 4, tsleft |-> 0, pkt |-> <<0, 0, 0, 0>> \o g.pes, pes |-> g.pes, acc |-> <<>>, cc0 |-> m.cc, c |-> c]
                     ELSE cor
               x == CorCopy([off |-> st.off, tsleft |-> st.tsleft, pkt |-> st.pkt, acc |-> st.acc, cc |-> m.cc], b, st.end)
               done == x.off >= st.end IN
           /\ m' = [cc |-> x.cc, rl |-> 0, rline |-> 0]
-          /\ cor' = [off |-> x.off, end |-> st.end, tsleft |-> x.tsleft, pkt |-> x.pkt, pes |-> st.pes, acc |-> IF done THEN <<>> ELSE x.acc, cc0 |-> st.cc0]
+          /\ cor' = [off |-> x.off, end |-> st.end, tsleft |-> x.tsleft, pkt |-> x.pkt, pes |-> st.pes, acc |-> IF done THEN <<>> ELSE x.acc, cc0 |-> st.cc0, c |-> st.c]
           /\ cur' = IF done THEN <<>> ELSE cur
           /\ hist' = IF done THEN Append(hist, [frame |-> frame, pts |-> pts, ok |-> TRUE, via |-> "cor",
-                                               pes |-> st.pes, bytes |-> x.acc, cc0 |-> st.cc0])
+                                               pes |-> st.pes, bytes |-> x.acc, cc0 |-> st.cc0, c |-> st.c])
                      ELSE hist
-  /\ UNCHANGED c
+  /\ UNCHANGED <<c, nre>>
 
 Reset == /\ cur = <<>> /\ hist # <<>> /\ Len(hist) < MaxFrames
          /\ m' = [cc |-> (m.cc + 15) % 16, rl |-> 0, rline |-> 0] /\ cor' = CorIdle
-         /\ hist' = Append(hist, [frame |-> <<>>, pts |-> <<0, 0>>, ok |-> FALSE, via |-> "reset", pes |-> <<>>, bytes |-> <<>>, cc0 |-> m.cc])
-         /\ UNCHANGED <<c, cur>>
+         /\ hist' = Append(hist, [frame |-> <<>>, pts |-> <<0, 0>>, ok |-> FALSE, via |-> "reset", pes |-> <<>>, bytes |-> <<>>, cc0 |-> m.cc, c |-> c])
+         /\ UNCHANGED <<c, cur, nre>>
+
+(* ---- reconfiguration between two calls ----
+   Enabled whenever no call is running: between frames and while a packet is partly delivered through the
+   coroutine (cor.off < cor.end), at every offset.  (Between CorStart - the choice of the frame, not an
+   API call - and the first CorCall it would be the same as before CorStart.)
+   Nothing but the configuration changes: the packet buffer, the offsets, the continuity counter and
+   the frame being delivered stay.  WriteThrough is the deviation "the setter stores the byte in
+   mx->packet[] directly": the byte of a packet not yet delivered up to there changes under the reader. *)
+CanReconf == nre < MaxReconf /\ ~(cur # <<>> /\ cor.off >= cor.end)
+DidAt == 4 + HB                        \* 1-based position of the data_identifier in cor.pkt (mx->packet[4 + 45])
+SetDid(d) == /\ CanReconf /\ nre' = nre + 1
+             /\ c' = (IF DidLegal(d) THEN [c EXCEPT !.did = d] ELSE c)            \* FALSE: "outside the valid ranges"
+             /\ cor' = (IF WriteThrough /\ DidLegal(d) /\ Len(cor.pkt) >= DidAt THEN [cor EXCEPT !.pkt[DidAt] = d] ELSE cor)
+             /\ UNCHANGED <<m, cur, hist>>
+SetSizes(r) == /\ CanReconf /\ nre' = nre + 1
+               /\ c' = [c EXCEPT !.min = RoundSizes(r[1], r[2])[1], !.max = RoundSizes(r[1], r[2])[2]]
+               /\ UNCHANGED <<m, cor, cur, hist>>
 
 \* the scaled layouts have no room for sample segments in the fixed length format
 Supported(k) == ~(DidFixed(c.did) /\ RawItems(FrameTab(k)) # <<>>)
 Next == \/ \E k \in 1..NFrames : Supported(k) /\ (FeedCb(k) \/ CorStart(k))
         \/ \E b \in CorBufs : CorCall(b)
         \/ Reset
+        \/ \E d \in Dids : SetDid(d)
+        \/ \E r \in SizeReqs : SetSizes(r)
 Spec == Init /\ [][Next]_vars
 
 -----------------------------------------------------------------------------
 (* ---- properties ---- *)
 CutTs(b) == [i \in 1..(Len(b) \div TSL) |-> [h |-> SubSeq(b, (i - 1) * TSL + 1, (i - 1) * TSL + 4),
                                               pay |-> SubSeq(b, (i - 1) * TSL + 5, i * TSL)]]
-PesCfg == [did |-> c.did, min |-> c.min, max |-> c.max]
+PesCfg(g) == [did |-> g.did, min |-> g.min, max |-> g.max]
 
 RawWanted(frame) == [i \in 1..Len(RawItems(frame)) |->
                        [line |-> RawItems(frame)[i].line, pos |-> 0, ys |-> [k \in 1..RawN |-> RawSample(RawItems(frame)[i].line, k - 1)]]]
 PacketOK(h) ==
-  /\ PesConformant(h.pes, PesCfg, h.pts)
+  /\ PesConformant(h.pes, PesCfg(h.c), h.pts)             \* for the configuration the packet was generated under
   /\ Ascending(LineSeq(h.pes))
   /\ RawOf(h.pes).ok
   /\ c.ts => Len(h.bytes) % TSL = 0 /\ TsConformant(CutTs(h.bytes), h.pes, c.pid, h.cc0)
@@ -185,7 +219,7 @@ CarriesInput == \A i \in 1..Len(hist) : hist[i].ok =>
                   /\ RawOf(hist[i].pes).lines = RawWanted(hist[i].frame)
 RejectSilent == \A i \in 1..Len(hist) : ~hist[i].ok => hist[i].bytes = <<>>
 Decisions == \A i \in 1..Len(hist) : hist[i].via # "reset" =>
-               /\ MustReject(hist[i].frame, c) => ~hist[i].ok
+               /\ MustReject(hist[i].frame, hist[i].c) => ~hist[i].ok
                /\ hist[i].ok => FrameLegal(hist[i].frame)
 CorEqualsCb == \A i \in 1..Len(hist) : hist[i].ok /\ hist[i].via = "cor" => hist[i].bytes = CbBytes(hist[i].pes, hist[i].cc0)
 \* consecutive continuity counters over the whole output (a reset steps back by one: "make clear that continuity was lost")
